@@ -384,6 +384,17 @@ async fn scatter_sql_over_table(
                 participants[i].node_id, participants[i].address
             ))
         })?;
+        // The worker announces how many rows it is sending (`x-qe-rows`). A
+        // reply that decodes to a different number was cut short or damaged on
+        // the way; merging it would be a partial answer.
+        let decoded_rows: usize = decoded.iter().map(|b| b.num_rows()).sum();
+        if decoded_rows != rows {
+            return Err(QueryError::Execution(format!(
+                "node {} ({}) announced {rows} rows for shard {i} of table `{table}` but its \
+                 fragment result decodes to {decoded_rows}; refusing a partial answer",
+                participants[i].node_id, participants[i].address
+            )));
+        }
         contributions.push(NodeContribution {
             node_id: participants[i].node_id,
             address: participants[i].address.clone(),
@@ -748,6 +759,7 @@ fn unify(batches: Vec<RecordBatch>) -> Result<Vec<RecordBatch>> {
 /// survive as a zero-row batch, or the merge stage cannot even register the
 /// partial table (Q20-shaped TopN over a selective filter hits this).
 pub fn decode_ipc(bytes: &[u8]) -> Result<Vec<RecordBatch>> {
+    check_ipc_framing(bytes)?;
     let reader = arrow::ipc::reader::StreamReader::try_new(std::io::Cursor::new(bytes), None)?;
     let schema = reader.schema();
     let mut out = Vec::new();
@@ -758,6 +770,70 @@ pub fn decode_ipc(bytes: &[u8]) -> Result<Vec<RecordBatch>> {
         out.push(RecordBatch::new_empty(schema));
     }
     Ok(out)
+}
+
+/// Verify the encapsulated-message framing of an IPC stream before decoding it.
+///
+/// `StreamReader` treats "no more bytes" exactly like the end-of-stream marker,
+/// so a reply cut at a message boundary decodes as a shorter, perfectly valid
+/// stream — a partial answer. It also allocates the body length a message
+/// *declares* before reading it, so one damaged length field can ask for
+/// exabytes and abort the process. Both are ruled out here: every message must
+/// lie inside the buffer, and the stream must end with the marker
+/// (`0xFFFFFFFF 0x00000000`) that `encode_ipc` always writes.
+fn check_ipc_framing(bytes: &[u8]) -> Result<()> {
+    let bad = |what: String| {
+        QueryError::Execution(format!(
+            "fragment result is not a complete Arrow IPC stream: {what}"
+        ))
+    };
+    let word = |at: usize| -> Option<u32> {
+        bytes
+            .get(at..at.checked_add(4)?)
+            .map(|b| u32::from_le_bytes([b[0], b[1], b[2], b[3]]))
+    };
+    let mut pos = 0usize;
+    loop {
+        let first = word(pos)
+            .ok_or_else(|| bad(format!("it ends at byte {pos} without an end-of-stream marker")))?;
+        let (len, prefix) = if first == 0xFFFF_FFFF {
+            let len = word(pos + 4)
+                .ok_or_else(|| bad(format!("it is cut inside the message prefix at byte {pos}")))?;
+            (len, 8usize)
+        } else {
+            (first, 4usize)
+        };
+        if len == 0 {
+            return if pos + prefix == bytes.len() {
+                Ok(())
+            } else {
+                Err(bad(format!(
+                    "{} bytes follow the end-of-stream marker",
+                    bytes.len() - pos - prefix
+                )))
+            };
+        }
+        let meta_start = pos + prefix;
+        let meta = (len as usize)
+            .checked_add(meta_start)
+            .and_then(|end| bytes.get(meta_start..end))
+            .ok_or_else(|| {
+                bad(format!(
+                    "the message at byte {pos} declares {len} bytes of metadata, more than remain"
+                ))
+            })?;
+        let message = arrow::ipc::root_as_message(meta)
+            .map_err(|e| bad(format!("the message at byte {pos} has invalid metadata: {e}")))?;
+        let body = message.bodyLength();
+        let body_start = meta_start + len as usize;
+        let remaining = bytes.len() - body_start;
+        if body < 0 || body as u64 > remaining as u64 {
+            return Err(bad(format!(
+                "the message at byte {pos} declares a body of {body} bytes but {remaining} remain"
+            )));
+        }
+        pos = body_start + body as usize;
+    }
 }
 
 /// Encode batches as an Arrow IPC stream.
@@ -1065,6 +1141,47 @@ mod tests {
                 matches!(e, QueryError::NotImplemented(_)),
                 "`{sql}` produced {e:?}"
             );
+        }
+    }
+
+    fn two_batch_stream() -> Vec<u8> {
+        use arrow::array::Int64Array;
+        use arrow::datatypes::{DataType, Field, Schema};
+        let schema = Arc::new(Schema::new(vec![Field::new("x", DataType::Int64, true)]));
+        let b = |v: Vec<i64>| {
+            RecordBatch::try_new(schema.clone(), vec![Arc::new(Int64Array::from(v))]).unwrap()
+        };
+        encode_ipc(&schema, &[b(vec![1, 2, 3]), b(vec![4, 5])]).unwrap()
+    }
+
+    /// A reply cut exactly between two IPC messages used to decode as a
+    /// shorter valid stream (a partial answer). Every proper prefix must fail.
+    #[test]
+    fn a_truncated_ipc_stream_is_an_error_at_every_length() {
+        let bytes = two_batch_stream();
+        assert_eq!(
+            decode_ipc(&bytes).unwrap().iter().map(|b| b.num_rows()).sum::<usize>(),
+            5
+        );
+        for cut in 0..bytes.len() {
+            assert!(
+                decode_ipc(&bytes[..cut]).is_err(),
+                "a stream cut at byte {cut} of {} decoded",
+                bytes.len()
+            );
+        }
+    }
+
+    /// A damaged length field must be an error, not an allocation of whatever
+    /// size the damaged message declares.
+    #[test]
+    fn a_message_declaring_more_bytes_than_exist_is_an_error() {
+        let good = two_batch_stream();
+        for at in 0..good.len() {
+            let mut bytes = good.clone();
+            bytes[at] ^= 0x7f;
+            // must return (Ok for a flip the format cannot notice, Err otherwise)
+            let _ = std::panic::catch_unwind(|| decode_ipc(&bytes).map(|b| b.len()));
         }
     }
 
